@@ -531,9 +531,9 @@ PROPS["C11"] = dict(
 
 PROPS["C02"] = dict(
     title="Acknowledged mode recovers from any bounded loss, duplication and reordering",
-    module="Cfdp.Props.C02",
+    module="Cfdp.Props.C02w",
     namespace="Cfdp.Seg",
-    theorems=["C02_round_completes", "C02_gaps_answered", "Cfdp.Recv.C02_finishes_when_complete"],
+    theorems=["C02_round_completes", "C02_gaps_answered", "Cfdp.Recv.C02_finishes_when_complete", "Cfdp.Recv.C02_never_waits_complete"],
     engines=["daemon", "recv", "send", "net"],
     design="§6 C02",
     technique="Lean 4 proofs of the recovery steps over the segment / receiver / sender models; the composition over a lossy link is checked on two real daemons under a virtual clock with bounded fault plans",
@@ -541,11 +541,11 @@ PROPS["C02"] = dict(
                 "the bytes of [0, size) it was missing, its segment list covers [0, size) (C02_round_completes), in particular for exact answers to the requests of one NAK "
                 "(C02_gaps_answered; the requests are exactly what is missing by C08_exact, the sender's answers carry exactly the requested bytes of the file by C07); in the "
                 "iteration in which the last missing piece arrives the receiver finalises, enters the Finished phase and queues the Finished PDU "
-                "(C02_finishes_when_complete); every unanswered EOF / Finished / NAK is retransmitted once per timer expiry up to the limit (C17_*_ack_expiry, "
+                "(C02_finishes_when_complete), and along every history an acknowledged receiver that is still collecting although Metadata and EOF have arrived really misses file data - it never sits on a complete file (C02_never_waits_complete, invariant Waiting, Props/C02w.lean); every unanswered EOF / Finished / NAK is retransmitted once per timer expiry up to the limit (C17_*_ack_expiry, "
                 "C17_send_eof_rearms, C08_queue_after_eof); duplicates and stragglers after completion change nothing (C04). PARTIAL: that these steps compose to completion "
                 "whenever fewer than `limit` consecutive transmissions of any PDU are lost is a liveness statement about two transaction models, the link and the scheduler; "
                 "it is not a theorem here. It is checked on the real code: the daemon engine runs acknowledged transfers between two real daemons with every kind of fault "
-                "plan below the limit and requires file identity, success at both users and termination of both transactions (oracles recovers, same_outcome, daemon_bounded)."),
+                "plan below the limit and requires file identity, success at both users and termination of both transactions (oracles recovers, same_outcome, daemon_bounded); the net engine does the same on a real sender and a real receiver in lockstep with both Lean models (losses confined to a zero-time phase, then a loss-free link)."),
     level_note=DAEMON_NOTE + " " + RECV_SEND_NOTE,
     rule=("daemon engine: 40 (quick) / 400 (thorough) acknowledged transfers, files of 0, 1, seg-1, seg, seg+1, 3 seg, 5 seg+7 octets, segment 32/64/128, limit 3/4, timeouts 1-3 s, "
           "deferred / immediate NAK with delay 0 / 300 ms, closure, CRC on/off; fault plans of fewer than `limit` faults: drop / duplicate / delay (50-450 ms) placed either on PDU "
